@@ -46,7 +46,8 @@ func processOcode(oc ocode.Ocode, ctx *CodeGenContext, machineCode *[]byte) ([]b
 	log.Printf("debug: processOcode: %s, operands: %v\n", oc.Kind, oc.Operands)
 
 	// Check if the instruction is a no-parameter instruction handled by opcodeMap
-	if _, exists := opcodeMap[oc.Kind]; exists {
+	// (オペランド付きの MUL/DIV/IDIV などは 1 バイトのオペコード表では生成できないため、下の switch に回す)
+	if _, exists := opcodeMap[oc.Kind]; exists && len(oc.Operands) == 0 {
 		return handleNoParamOpcode(oc), nil
 	}
 
